@@ -12,6 +12,10 @@
 (*                             MkdirAll(parent), OpenFile, Truncate         *)
 (*   id     item.id            Join(base, ".thruflux_resumedata", id+ext)  *)
 (*                             MkdirAll, WriteFile, Rename, Remove (Resume)*)
+(*   offer  root name of the signaling manifest offer (internal/app        *)
+(*          snapshot_receiver.go): ReadDir / RemoveAll of                  *)
+(*          Join(out, name, ".thruflux_resumedata") before the transfer,   *)
+(*          when the user is asked "resume or overwrite"                   *)
 (* Property: for every value either the guard rejects it or the cleaned    *)
 (* target stays below the output directory.                                *)
 (* Switch GuardAllFields = FALSE is the pinned commit (only FileBegin's    *)
@@ -25,7 +29,7 @@ CONSTANTS MaxLen, GuardAllFields
 \* inner = name containing ".." ("a..b"), bs = "c\..\d" (backslash-separated traversal in one segment),
 \* tdd = "..." (three dots: a normal name)
 Seg == {"n", "dd", "d", "e", "inner", "bs", "tdd"}
-Fields == {"root", "dir", "file", "id"}
+Fields == {"root", "dir", "file", "id", "offer"}
 
 VARIABLES field, segs, abs, noRoot, resume, phase
 vars == <<field, segs, abs, noRoot, resume, phase>>
@@ -64,6 +68,7 @@ Rejected ==
     [] field = "dir"  -> GuardAllFields /\ ~ValidRel(segs, abs)
     [] field = "root" -> GuardAllFields /\ ~(ValidName(segs, abs) \/ \A i \in 1..Len(segs) : segs[i] = "e")   \* "", "/" join to the output directory itself
     [] field = "id"   -> GuardAllFields /\ ~ValidName(segs, abs)
+    [] field = "offer" -> GuardAllFields /\ ~(ValidName(segs, abs) \/ \A i \in 1..Len(segs) : segs[i] = "e")
 
 \* the path the sink touches
 Target ==
@@ -71,11 +76,13 @@ Target ==
     [] field = "dir"  -> JoinClean(Base(Benign), segs)
     [] field = "root" -> JoinClean(Out, segs)                       \* MkdirAll(rootedDir) / fallback sidecar dir
     [] field = "id"   -> JoinClean(Base(Benign) \o <<"RESUME">>, segs)   \* sidecar file named after the id
+    [] field = "offer" -> JoinClean(Out, segs) \o <<"RESUME">>            \* resume-data directory looked up / cleared
 
 \* is the sink reached at all in this mode?
 Reached ==
   CASE field = "root" -> ~noRoot \/ resume
     [] field = "id"   -> resume
+    [] field = "offer" -> resume        \* the receiver binary always runs with resume on; the flag selects the rows
     [] OTHER -> TRUE
 
 Escapes == Reached /\ ~Rejected /\ ~Below(Target)
